@@ -315,6 +315,16 @@ func (dsc *dataStoreCommand) setDirty() {
 	dsc.ds.data.dirty = true
 }
 
+// keyModifiedUnlocked records an in-place change of a key: the store needs saving, and
+// the key gets a new id so that a WATCH on it notices the modification
+func (dsc *dataStoreCommand) keyModifiedUnlocked(keyName string) {
+	dsc.setDirty()
+	if val, exists := dsc.ds.data.get(keyName); exists {
+		dsc.ds.dataObjectNumber++
+		val.(*storeKey).id = dsc.ds.dataObjectNumber
+	}
+}
+
 func (dsc *dataStoreCommand) getKeyObject(keyName string) (sk *storeKey, exists bool) {
 	dsc.lock()
 	defer dsc.unlock()
@@ -395,6 +405,7 @@ func (dsc *dataStoreCommand) getKeySetExpiration(keyName string, expiration time
 		if strBytes != nil {
 			val = string(strBytes)
 			sk.expiresAt = expiration
+			dsc.keyModifiedUnlocked(keyName)
 		} else {
 			exists = VALUE_WRONG_TYPE
 		}
@@ -953,6 +964,7 @@ func (dsc *dataStoreCommand) expire(keyName string, expiration time.Time, nx, xx
 	}
 
 	sk.expiresAt = expiration
+	dsc.keyModifiedUnlocked(keyName)
 	output.data = respInt(1)
 	return
 }
@@ -972,12 +984,16 @@ func (dsc *dataStoreCommand) expireTime(keyName string) (expiration time.Time, v
 }
 
 func (dsc *dataStoreCommand) persist(keyName string) (output respValue) {
-	sk, exists := dsc.getKeyObject(keyName)
+	dsc.lock()
+	defer dsc.unlock()
+
+	sk, exists := dsc.getKeyObjectUnlocked(keyName)
 	if !exists || !sk.expiresAt.Before(maxTime) {
 		output.data = respInt(0)
 		return
 	}
 	sk.expiresAt = maxTime
+	dsc.keyModifiedUnlocked(keyName)
 	output.data = respInt(1)
 	return
 }
@@ -1159,7 +1175,7 @@ func (dsc *dataStoreCommand) lpushUnlocked(keyName string, list *storeList, elem
 	}
 	list.head = &item
 	list.count++
-	dsc.setDirty()
+	dsc.keyModifiedUnlocked(keyName)
 }
 
 func (dsc *dataStoreCommand) lpush(keyName string, values [][]byte) (output respValue) {
@@ -1227,7 +1243,7 @@ func (dsc *dataStoreCommand) lpopUnlocked(keyName string, list *storeList, item 
 		dsc.ds.data.remove(keyName)
 	}
 
-	dsc.setDirty()
+	dsc.keyModifiedUnlocked(keyName)
 }
 
 func (dsc *dataStoreCommand) lpop(keyName string, count int) (values [][]byte, err *respErrorString) {
@@ -1267,7 +1283,7 @@ func (dsc *dataStoreCommand) rpushUnlocked(keyName string, list *storeList, elem
 	}
 	list.tail = &item
 	list.count++
-	dsc.setDirty()
+	dsc.keyModifiedUnlocked(keyName)
 }
 
 func (dsc *dataStoreCommand) rpush(keyName string, values [][]byte) (output respValue) {
@@ -1335,7 +1351,7 @@ func (dsc *dataStoreCommand) rpopUnlocked(keyName string, list *storeList, item 
 		dsc.ds.data.remove(keyName)
 	}
 
-	dsc.setDirty()
+	dsc.keyModifiedUnlocked(keyName)
 }
 
 func (dsc *dataStoreCommand) rpop(keyName string, count int) (values [][]byte, err *respErrorString) {
@@ -1474,6 +1490,7 @@ func (dsc *dataStoreCommand) linsert(keyName string, before bool, pivot, element
 	} else {
 		dsc.linsertAfterUnlocked(list, pivotItem, []byte(element))
 	}
+	dsc.keyModifiedUnlocked(keyName)
 
 	output.data = respInt(list.count)
 	return
@@ -1727,7 +1744,7 @@ func (dsc *dataStoreCommand) removeUnlocked(keyName string, list *storeList, ite
 	item.next = nil
 	item.prev = nil
 
-	dsc.setDirty()
+	dsc.keyModifiedUnlocked(keyName)
 }
 
 func (dsc *dataStoreCommand) lremove(keyName string, element string, count int) (removed int, err *respErrorString) {
@@ -1824,6 +1841,7 @@ func (dsc *dataStoreCommand) lset(keyName string, element string, count int) (ou
 	}
 
 	item.element = []byte(element)
+	dsc.keyModifiedUnlocked(keyName)
 	output.data = rstrOK
 	return
 }
@@ -1988,7 +2006,7 @@ func (dsc *dataStoreCommand) setHashTableWorker(keyName string, fieldNames, valu
 			added++
 		}
 		m.store(fieldName, values[idx])
-		dsc.setDirty()
+		dsc.keyModifiedUnlocked(keyName)
 	}
 	return
 }
@@ -2013,7 +2031,7 @@ func (dsc *dataStoreCommand) deleteHashTableFields(keyName string, fieldNames []
 		for _, fieldName := range fieldNames {
 			if m.remove(fieldName) {
 				removed++
-				dsc.setDirty()
+				dsc.keyModifiedUnlocked(keyName)
 
 				if m.count == 0 {
 					dsc.ds.data.remove(keyName)
@@ -2069,7 +2087,7 @@ func (dsc *dataStoreCommand) fieldAddInt(keyName, fieldName string, delta int64)
 		ve = VALUE_DOESNT_EXIST
 	}
 	m.store(fieldName, fmt.Sprintf("%d", value))
-	dsc.setDirty()
+	dsc.keyModifiedUnlocked(keyName)
 
 	return
 }
@@ -2117,13 +2135,13 @@ func (dsc *dataStoreCommand) fieldAddFloat(keyName, fieldName string, delta floa
 			ve = VALUE_OVERFLOW
 			return
 		}
-		dsc.setDirty()
 		ve = VALUE_EXISTS
 	} else {
 		ve = VALUE_DOESNT_EXIST
 	}
 
 	m.store(fieldName, strconv.FormatFloat(value, 'f', -1, 64))
+	dsc.keyModifiedUnlocked(keyName)
 	return
 }
 
@@ -2407,7 +2425,7 @@ func (dsc *dataStoreCommand) setAddWorkerUnlocked(keyName string, memberNames []
 			added++
 		}
 		m.store(memberName, struct{}{})
-		dsc.setDirty()
+		dsc.keyModifiedUnlocked(keyName)
 	}
 	return
 }
@@ -2432,7 +2450,7 @@ func (dsc *dataStoreCommand) deleteSetMembers(keyName string, memberNames []stri
 		for _, memberName := range memberNames {
 			if m.remove(memberName) {
 				removed++
-				dsc.setDirty()
+				dsc.keyModifiedUnlocked(keyName)
 
 				if m.count == 0 {
 					dsc.ds.data.remove(keyName)
@@ -2905,7 +2923,7 @@ func (dsc *dataStoreCommand) setMove(source, destination, memberName string) (ou
 	}
 
 	ss.remove(memberName)
-	dsc.setDirty()
+	dsc.keyModifiedUnlocked(source)
 
 	// a set never exists empty
 	if ss.count == 0 {
@@ -2936,7 +2954,7 @@ func (dsc *dataStoreCommand) setRemove(keyName string, members []string) (output
 	for _, member := range members {
 		if m.remove(member) {
 			removals++
-			dsc.setDirty()
+			dsc.keyModifiedUnlocked(keyName)
 		}
 	}
 
